@@ -88,7 +88,53 @@ pub fn compare_fields(pid: &str, buf: &[u8], want: &dyn Fn(&str) -> bool) -> (Si
                 Ok(a) => a,
                 Err(_) => return (vec![(format!("{pid}/panic/{class}"), format!("calculate() panicked: {}", last_panic()))], false),
             };
-            (diff_sigs(pid, &class, &e, &act, want), true)
+            let mut sigs = diff_sigs(pid, &class, &e, &act, want);
+            // The same fields when the frame is decoded from a reader instead of a slice: the frame
+            // sits a few bytes into a longer stream and arrives two bytes per read call (a sample:
+            // one frame in eight, chosen by its content).
+            if sigs.is_empty() && buf.iter().fold(0u32, |a, b| a.wrapping_mul(31).wrapping_add(*b as u32)) % 8 == 0 {
+                use crate::readercheck::{Scripted, Step};
+                let off = 3 + (buf[buf.len() - 1] % 9) as usize;
+                let mut stream = vec![0x8du8; off];
+                stream.extend_from_slice(buf);
+                // ... and, for the formats whose frames the decoder reads completely, the same frame
+                // once more right behind it (a capture read frame by frame from one reader)
+                let df = buf[0] >> 3;
+                let twice = buf.len() == bits::required_len(df) && !matches!(df, 19 | 20);
+                if twice {
+                    stream.extend_from_slice(buf);
+                }
+                let script: [Step; 0] = [];
+                let r = catch_unwind(AssertUnwindSafe(|| {
+                    let mut rd = Scripted::at(&stream, off, &script, 2);
+                    let first = Frame::from_reader(&mut rd).ok().map(|f| refdec::actual(&f));
+                    let second = if twice { Some(Frame::from_reader(&mut rd).ok().map(|f| refdec::actual(&f))) } else { None };
+                    (first, second)
+                }));
+                let (r, second) = match r {
+                    Ok((a, b)) => (Ok(a), b),
+                    Err(e) => (Err(e), None),
+                };
+                match second {
+                    Some(Some(act3)) => {
+                        for (sg, m) in diff_sigs(pid, &class, &e, &act3, want) {
+                            sigs.push((sg.replacen(&format!("{pid}/"), &format!("{pid}/from_reader/second_frame/"), 1), format!("the frame right behind a copy of itself in one reader: {m}")));
+                        }
+                    }
+                    Some(None) => sigs.push((format!("{pid}/from_reader/second_frame/rejected/{class}"), "two copies of the frame in one reader: the first decodes, the second does not".to_string())),
+                    None => {}
+                }
+                match r {
+                    Ok(Some(act2)) => {
+                        for (sg, m) in diff_sigs(pid, &class, &e, &act2, want) {
+                            sigs.push((sg.replacen(&format!("{pid}/"), &format!("{pid}/from_reader/"), 1), format!("decoded from a reader ({off} bytes into the stream, 2 bytes per read): {m}")));
+                        }
+                    }
+                    Ok(None) => sigs.push((format!("{pid}/from_reader/rejected/{class}"), format!("the frame decodes from a slice, but not from a reader ({off} bytes into the stream, 2 bytes per read)"))),
+                    Err(_) => sigs.push((format!("{pid}/from_reader/panic/{class}"), format!("from_reader panicked: {}", last_panic()))),
+                }
+            }
+            (sigs, true)
         }
         // a frame the statement says is accepted, but the library rejects it: the fields this
         // property is about are not delivered at all
